@@ -639,6 +639,12 @@ impl<T: Payload> World<T> {
     }
 
     pub fn digest_of(&self, arena: &Arena<T>) -> u64 {
+        // reading a payload can panic on an arena that a defect has damaged ("freed node"):
+        // the digest then is a sentinel, the oracles report the damage
+        catch(|| self.digest_of_inner(arena)).unwrap_or(0xdead_beef)
+    }
+
+    fn digest_of_inner(&self, arena: &Arena<T>) -> u64 {
         let mut h = Fnv::new();
         let count = arena.count();
         h.u64(count as u64);
@@ -836,13 +842,17 @@ impl<T: Payload> World<T> {
             self.diverged = true;
             return false;
         }
-        let serial = self.arena.get(id).and_then(|n| {
-            if n.is_removed() {
-                None
-            } else {
-                n.get().serial()
-            }
-        });
+        let arena = &self.arena;
+        let serial = catch(|| {
+            arena.get(id).and_then(|n| {
+                if n.is_removed() {
+                    None
+                } else {
+                    n.get().serial()
+                }
+            })
+        })
+        .unwrap_or(None);
         self.m.adopt_alloc(k, id, val, serial, self.step_no);
         true
     }
@@ -1176,13 +1186,17 @@ impl<T: Payload> World<T> {
         let arena = &self.arena;
         for n in self.m.nodes.values_mut() {
             if n.live {
-                n.serial = arena.get(n.id).and_then(|x| {
-                    if x.is_removed() {
-                        None
-                    } else {
-                        x.get().serial()
-                    }
-                });
+                let id = n.id;
+                n.serial = catch(|| {
+                    arena.get(id).and_then(|x| {
+                        if x.is_removed() {
+                            None
+                        } else {
+                            x.get().serial()
+                        }
+                    })
+                })
+                .unwrap_or(None);
             }
         }
     }
@@ -1218,6 +1232,10 @@ impl<T: Payload> World<T> {
     }
 
     pub fn digest_plain(&self, arena: &Arena<T>) -> u64 {
+        catch(|| self.digest_plain_inner(arena)).unwrap_or(0xdead_beef)
+    }
+
+    fn digest_plain_inner(&self, arena: &Arena<T>) -> u64 {
         // ordinals come from self.m.issued; between fork and tick the frozen side's ids are a
         // subset of those known to self.m (ids are never forgotten within a fork window unless
         // the advanced side was cleared, in which case ordinals are 0 on both evaluations only if
